@@ -8,15 +8,17 @@
           on really signed transactions).  [sufficient e s]: the fee stored in [s] is at least [need].
           [policy_ok]: NotLess r -> fee >= r, Exactly f -> fee = f.
 
-   SLACK  add_change prices a transaction whose fee field holds a PLACEHOLDER (2^32: a 9-byte integer; when a
+   SLACK  (the code before the repair, add_change_legacy)  add_change prices a transaction whose fee field holds a PLACEHOLDER (2^32: a 9-byte integer; when a
           requested minimal fee r is binding, i.e. above the estimate, the differences of aligned estimates only
           guarantee the width of r) and whose change outputs carry the coins they were priced with; afterwards
           it stores the real fee and may top the last output up with the ADA that is left.  [slack_ok] says that
           outputs + fee field of the FINAL state are not larger than outputs of the PRICED state + placeholder width.
           The priced state is the state just before the top-up: [add_change_pre] is add_change without that last
-          step (lemma add_change_split in FeeProofs.v: add_change = add_change_pre followed by the top-up).
+          step (lemma add_change_split in FeeProofs.v: add_change_legacy = add_change_pre followed by the top-up).
+          The repaired add_change runs check_fee_after_change at the end and fails instead of leaving such a fee.
 
    API    need_w, need, sufficient, sufficientb, policy_ok, fld0, binding, placeholder_w,
+          pure_branch_legacy, asset_branch_legacy, add_change_legacy, post_check,
           asset_branch_pre, add_change_pre, finish_change, slack_ok, validate_fee_legacy, build_tx_legacy,
           judge inputs/verdict: ledger_min_fee, tx_report, judge_tx, verdict *)
 From CSL Require Import Base.Prelude Base.U64 Cbor.Head Num.Value Deposits.Deposits Builder.Totals Builder.Change
@@ -78,6 +80,75 @@ Section Pre.
   Notation "'doM' m 'in' k" := (bindM m (fun _ => k))
     (at level 200, m at level 100, k at level 200, right associativity).
 
+  (* ---- the change computation BEFORE /repo "fix: add_change_if_needed fails when the fee it computed does not cover
+     the transaction it leaves": Change.pure_branch / asset_branch / add_change without the final
+     check_fee_after_change.  Kept for the refutation lemmas (the known classes of the old code) and because the
+     analysis of the pricing phase is done on it; Change.add_change = add_change_legacy followed by the check
+     (lemma add_change_fix_split). ---- *)
+  Definition pure_branch_legacy (addr extra : N) (change_estimator : value) (fee : N) : @M O bool :=
+    letM min_ada := askA orc (mkOutput fake_addr change_estimator extra) in
+    if coin change_estimator <? min_ada then burn_extra (coin change_estimator)
+    else
+      letM fee_for_change := fee_for_output orc (mkOutput addr change_estimator extra) in
+      letM new_fee := lift (checked_add fee fee_for_change) in
+      letM need := lift (checked_add min_ada new_fee) in
+      if coin change_estimator <? need then burn_extra (coin change_estimator)
+      else
+        doM modify (set_final_fee new_fee) in
+        letM amount := lift (value_checked_sub change_estimator (value_new new_fee)) in
+        doM add_output orc (mkOutput addr amount extra) in
+        ret true.
+
+  Definition asset_branch_legacy (fuel : nat) (addr extra : N) (input_total output_total : value) (fee : N) : @M O bool :=
+    letM change_left0 := lift (value_checked_sub input_total output_total) in
+    letM minimum_utxo_val := askA orc (mkOutput fake_addr fake_value extra) in
+    letM r := change_while_loop orc fuel addr extra change_left0 fee in
+    letM change_left1 := lift (value_checked_sub (fst r) (value_new (snd r))) in
+    letM s := get in
+    letM r2 := (if c_prefer_pure_change (s_cfg s) && (minimum_utxo_val <? coin change_left1) then
+             letM additional_fee := fee_for_output orc (mkOutput addr change_left1 extra) in
+             letM potential_pure_value := lift (value_checked_sub change_left1 (value_new additional_fee)) in
+             if minimum_utxo_val <? coin potential_pure_value then
+               letM new_fee' := lift (checked_add (snd r) additional_fee) in
+               doM add_output orc (mkOutput addr potential_pure_value extra) in
+               ret (value_zero, new_fee')
+             else ret (change_left1, snd r)
+           else ret (change_left1, snd r)) in
+    doM modify (set_final_fee (snd r2)) in
+    doM (if value_is_zero (fst r2) then ret tt else top_up_last orc (fst r2)) in
+    ret true.
+
+  Definition add_change_legacy (fuel : nat) (addr extra : N) : @M O bool :=
+    letM s := get in
+    match s_fee s with
+    | Some _ => lift Err
+    | None =>
+        letM fee := min_fee_pub orc in
+        letM input_total := lift (get_total_input s) in
+        letM output_total := lift (get_total_output s) in
+        letM shortage := lift (get_input_shortage input_total output_total fee) in
+        if shortage : bool then lift Err
+        else
+          letM out_plus_fee := lift (value_checked_add output_total (value_new fee)) in
+          match value_partial_cmp input_total out_plus_fee with
+          | Some Eq =>
+              letM d := lift (value_checked_sub input_total output_total) in
+              doM modify (set_final_fee (coin d)) in
+              ret false
+          | Some Lt => lift Err
+          | None => lift Err
+          | Some Gt =>
+              letM change_estimator := lift (value_checked_sub input_total output_total) in
+              if has_assets (multiasset_of change_estimator)
+              then asset_branch_legacy fuel addr extra input_total output_total fee
+              else pure_branch_legacy addr extra change_estimator fee
+          end
+    end.
+
+  (* what the repair appends to the two paths that return true *)
+  Definition post_check (b : bool) : @M O bool :=
+    if b then doM check_fee_after_change orc in ret true else ret false.
+
   (* Change.asset_branch up to and including set_final_fee; returns what the top-up would add *)
   Definition asset_branch_pre (fuel : nat) (addr extra : N) (input_total output_total : value) (fee : N) : @M O (bool * option value) :=
     letM change_left0 := lift (value_checked_sub input_total output_total) in
@@ -120,7 +191,7 @@ Section Pre.
               letM change_estimator := lift (value_checked_sub input_total output_total) in
               if has_assets (multiasset_of change_estimator)
               then asset_branch_pre fuel addr extra input_total output_total fee
-              else letM b := pure_branch orc addr extra change_estimator fee in ret (b, None)
+              else letM b := pure_branch_legacy addr extra change_estimator fee in ret (b, None)
           end
     end.
 
@@ -149,7 +220,7 @@ Definition build_tx_legacy {O : Type} (orc : @oracle O) : @M O tx_body :=
    (false only when a change output was added or topped up: the exact and burn paths change no output) *)
 Definition slack_ok {O : Type} (e : env) (orc : @oracle O) (fuel : nat) (addr extra : N) (s : state) (o : O) : bool :=
   let rp := add_change_pre orc fuel addr extra s o in
-  let rf := add_change orc fuel addr extra s o in
+  let rf := add_change_legacy orc fuel addr extra s o in
   match out_res rp, s_fee (out_st rf) with
   | Ok (true, _), Some F =>
       outs_size e (s_outputs (out_st rf)) + head_size F <=? outs_size e (s_outputs (out_st rp)) + placeholder_w e s
